@@ -196,9 +196,14 @@ where
             FromSwarm::ConnectionClosed(ConnectionClosed {
                 peer_id,
                 connection_id,
+                remaining_established,
                 ..
             }) => {
                 self.client.on_connection_closed(peer_id, connection_id);
+
+                if remaining_established == 0 {
+                    self.server.on_peer_disconnected(peer_id);
+                }
             }
             _ => {}
         }
